@@ -2176,41 +2176,55 @@ class Mailbox:
             uids_to_delete,
         )
 
-        for msg_key in to_delete:
-            # Remove the message from the folder.. and also remove it from our
-            # uids to message index mapping. NOTE: To convert which to the IMAP
-            # message sequence order we must increment it by one (because they
-            # are 1-based)
-            #
-            # NOTE: num_recent and num_msgs will be updated on the next
-            #       resync. Since the expunge must operate alone that means a
-            #       resync will happen before the next IMAP command begins
-            #       executing.
-            #
-            if msg_key not in self._msg_key_to_idx:
-                logger.error(
-                    "Mailbox: '%s': msg key %d not in msg_keys: %s",
-                    self.name,
-                    msg_key,
-                    self.msg_keys,
-                )
-                continue
-            which = self._msg_key_to_idx[msg_key]
-            uid = self.uids[which]
-            del self.msg_keys[which]
-            del self.uids[which]
-            self.num_msgs -= 1
-            await self.mailbox.aremove(msg_key)
-            expunge_msg = f"* {which + 1} EXPUNGE\r\n"
-            await self._dispatch_or_pend_notifications(expunge_msg)
-        self._rebuild_index_dicts()
-
-        # Remove all deleted msg keys from all sequences
+        # NOTE: The lists are shortened message by message, around awaits. If
+        #       we are interrupted (the command times out, a file can not be
+        #       removed) the reverse indexes and the sequences must still
+        #       follow the lists: every UID lookup goes through them.
         #
-        for seq in self.sequences.keys():
+        removed: list[int] = []
+        try:
             for msg_key in to_delete:
-                self.sequences[seq].discard(msg_key)
-        self.num_recent = len(self.sequences["Recent"])
+                # Remove the message from the folder.. and also remove it from
+                # our uids to message index mapping. NOTE: To convert which to
+                # the IMAP message sequence order we must increment it by one
+                # (because they are 1-based)
+                #
+                # NOTE: num_recent and num_msgs will be updated on the next
+                #       resync. Since the expunge must operate alone that means
+                #       a resync will happen before the next IMAP command
+                #       begins executing.
+                #
+                removed.append(msg_key)
+                if msg_key not in self._msg_key_to_idx:
+                    logger.error(
+                        "Mailbox: '%s': msg key %d not in msg_keys: %s",
+                        self.name,
+                        msg_key,
+                        self.msg_keys,
+                    )
+                    continue
+                which = self._msg_key_to_idx[msg_key]
+                uid = self.uids[which]
+                del self.msg_keys[which]
+                del self.uids[which]
+                self.num_msgs -= 1
+                try:
+                    await self.mailbox.aremove(msg_key)
+                except KeyError:
+                    # Something else already removed the file. That is what
+                    # we were about to do.
+                    #
+                    pass
+                expunge_msg = f"* {which + 1} EXPUNGE\r\n"
+                await self._dispatch_or_pend_notifications(expunge_msg)
+        finally:
+            self._rebuild_index_dicts()
+
+            # Remove all deleted msg keys from all sequences
+            #
+            for seq in self.sequences.keys():
+                self.sequences[seq].difference_update(removed)
+            self.num_recent = len(self.sequences["Recent"])
 
         # The removed messages must disappear from the folder's .mh_sequences
         # too. MH gives the next delivered message the highest key + 1, so a
